@@ -159,6 +159,24 @@ def order_scripts(rng, n):
                 steps.append(step(t, rng.choice(ops), rng))
         k = rng.choice([kid(), kid(sig_delay=10), kid(sig_delay=60)])
         out.append(finish("o%05d" % i, steps, [k, kid(), kid()], "order"))
+    # long runs of high-priority controls with a few normal ones among them: whatever the length of the
+    # run, every high (and a trailing urgent) control is taken before any normal one
+    for i in range(n // 4):
+        steps = [step(0, "start")]
+        t = 10
+        if rng.random() < 0.3:
+            steps.append(step(t, "stop_with_signal", grace=rng.choice([20, 30]), sig="TERM"))
+        t += rng.choice([0, 10])
+        burst = ["to_wait"] * rng.randrange(5, 13) + [rng.choice(["run", "signal", "run"]) for _ in range(rng.randrange(1, 4))]
+        rng.shuffle(burst)
+        if rng.random() < 0.3:
+            burst.append("delete_now")
+        for op in burst:
+            steps.append(step(t, op, rng))
+        if rng.random() < 0.5:
+            steps.append(step(t + 30, "run", rng))
+        k = rng.choice([kid(), kid(sig_delay=10), kid(self_at=25)])
+        out.append(finish("l%05d" % i, steps, [k, kid(), kid()], "order-long"))
     return out
 
 
